@@ -40,7 +40,11 @@ def gen(rng, tier, idx):
     # the mark types of this run
     types = {}
     for ty in r.sample(range(100), r.randint(1, 3)):
-        types[ty] = {"title": "title of %d" % ty, "stack": r.chance(50), "labels": {v: "L%d" % v for v in r.sample(range(1, 12), r.randint(0, 4))}}
+        weird = r.chance(25)
+        types[ty] = {"title": ("title of %d" % ty) if not weird else r.choice(["50% done", "%s%s%n", "a b  c", "100%% literal", "tab\there"]) + " %d" % ty,
+                     "stack": r.chance(50),
+                     "labels": {v: ("L%d" % v) if not weird else r.choice(["Solve 50% done", "100%% literal", "%d %s", "x" * 200, "é ñ"]) + " %d" % v
+                                for v in r.sample(range(1, 12), r.randint(0, 4))}}
     fault = r.choice(["pop-mismatch", "zero", "undefined", "redefine-type", "redefine-label", "wrong-op", "x-title", "x-chan", "x-label",
                       "label-undefined"]) if r.chance(40) else None
     if fault in ("x-title", "x-chan", "x-label") and nth < 2:
@@ -110,6 +114,10 @@ def gen(rng, tier, idx):
                     fault_done = True
                 elif fault == "undefined":
                     und = next(x for x in range(100) if x not in types)
+                    if r.chance(50):
+                        # undefined types that alias a defined one when truncated
+                        base = r.choice(sorted(types))
+                        und = r.choice([65536 + base, -65536 + base, 0x7fff0000 + base, 256 + base, 100 + base, 2 ** 31 - 1, -1, -2 ** 31])
                     g.mark(t, "set", und, 4)
                     fault_done = True
                 elif fault == "wrong-op":
